@@ -10,6 +10,8 @@ pub enum Status {
     Parked(&'static str),
     Running,
     Done,
+    /// the thread's program panicked (e.g. an `unwrap` on an error the tree under test now returns)
+    Panicked,
 }
 
 struct Inner {
@@ -17,6 +19,8 @@ struct Inner {
     turn: Option<usize>,
     os_tid: Vec<Option<i32>>,
     generation: u64,
+    /// threads last reported `Blocked`: asking again only needs a short look
+    was_blocked: Vec<bool>,
 }
 
 pub struct Sched {
@@ -44,6 +48,7 @@ pub enum StepResult {
     Done,
     Blocked,
     Skip,
+    Panicked,
 }
 
 impl Sched {
@@ -58,6 +63,7 @@ impl Sched {
                         turn: None,
                         os_tid: Vec::new(),
                         generation: 0,
+                        was_blocked: Vec::new(),
                     }),
                     cv: Condvar::new(),
                 })
@@ -70,6 +76,7 @@ impl Sched {
         let mut g = self.inner.lock().unwrap();
         g.status = vec![Status::NotStarted; nthreads];
         g.os_tid = vec![None; nthreads];
+        g.was_blocked = vec![false; nthreads];
         g.turn = None;
         g.generation += 1;
     }
@@ -95,9 +102,9 @@ impl Sched {
                 .and_then(|p| p.file_name().and_then(|n| n.to_str().and_then(|s| s.parse::<i32>().ok())));
             me.inner.lock().unwrap().os_tid[tid] = os;
             me.park(tid, "start");
-            f();
-            let mut g = me.inner.lock().unwrap();
-            g.status[tid] = Status::Done;
+            let r = std::panic::catch_unwind(std::panic::AssertUnwindSafe(f));
+            let mut g = me.inner.lock().unwrap_or_else(|e| e.into_inner());
+            g.status[tid] = if r.is_ok() { Status::Done } else { Status::Panicked };
             TID.with(|t| t.set(None));
             me.cv.notify_all();
         })
@@ -108,7 +115,7 @@ impl Sched {
 
     pub fn wait_parked(&self, tid: usize) {
         let mut g = self.inner.lock().unwrap();
-        while !matches!(g.status[tid], Status::Parked(_) | Status::Done) {
+        while !matches!(g.status[tid], Status::Parked(_) | Status::Done | Status::Panicked) {
             g = self.cv.wait(g).unwrap();
         }
     }
@@ -130,6 +137,7 @@ impl Sched {
         let mut g = self.inner.lock().unwrap();
         match g.status[tid] {
             Status::Done | Status::NotStarted => return StepResult::Skip,
+            Status::Panicked => return StepResult::Skip,
             Status::Running => {
                 // it was reported blocked earlier: see whether it has moved on
             }
@@ -139,6 +147,9 @@ impl Sched {
             }
         }
         let mut sleepy = 0;
+        // a thread that was blocked the last time we looked and has not been released since: a short look suffices
+        let need = if g.was_blocked[tid] && matches!(g.status[tid], Status::Running) { 3 } else { 25 };
+        g.was_blocked[tid] = false;
         loop {
             let (ng, _) = self.cv.wait_timeout(g, Duration::from_millis(1)).unwrap();
             g = ng;
@@ -148,10 +159,12 @@ impl Sched {
             match g.status[tid] {
                 Status::Parked(l) => return StepResult::At(l),
                 Status::Done => return StepResult::Done,
+                Status::Panicked => return StepResult::Panicked,
                 Status::Running => {
                     if Self::kernel_blocked(g.os_tid[tid]) {
                         sleepy += 1;
-                        if sleepy >= 25 {
+                        if sleepy >= need {
+                            g.was_blocked[tid] = true;
                             return StepResult::Blocked;
                         }
                     } else {
@@ -172,6 +185,7 @@ impl Sched {
             match g.status[tid] {
                 Status::Parked(l) => return StepResult::At(l),
                 Status::Done => return StepResult::Done,
+                Status::Panicked => return StepResult::Panicked,
                 Status::NotStarted => return StepResult::Skip,
                 Status::Running => {
                     if Self::kernel_blocked(g.os_tid[tid]) {
